@@ -28,6 +28,7 @@ Theorem C03_size_setters_go_through_rescale :
   && size_setters_rescale "ConvexSpheropolygon" ["area"; "perimeter"]
   && size_setters_rescale "ConvexSpheropolyhedron" ["volume"; "surface_area"; "mean_curvature"] = true.
 Proof. vm_compute. reflexivity. Qed.
+Print Assumptions C03_size_setters_go_through_rescale.
 
 (* for ALL histories over the mutator alphabet, every cached attribute is fresh afterwards *)
 Theorem C03_ConvexPolyhedron_coherent :
@@ -40,11 +41,13 @@ Theorem C03_Polyhedron_coherent :
   forall ops, (forall m, In m ops -> In m mutators_Polyhedron) ->
     coherent (fold_left step ops (fresh_state attrs_Polyhedron)) = true.
 Proof. apply coherent_histories. vm_compute. reflexivity. Qed.
+Print Assumptions C03_Polyhedron_coherent.
 
 Theorem C03_Polygon_coherent :
   forall ops, (forall m, In m ops -> In m mutators_Polygon) ->
     coherent (fold_left step ops (fresh_state attrs_Polygon)) = true.
 Proof. apply coherent_histories. vm_compute. reflexivity. Qed.
+Print Assumptions C03_Polygon_coherent.
 
 (* what the automaton says about the code AS FOUND (before the fix: commits): a diagonalize_inertia that
    does not refresh _equations, and a merge_faces that does not invalidate the edge cache, break coherence *)
